@@ -2135,6 +2135,17 @@ def disk_partitions(all=False):
 # Held by disk_io_counters() / net_io_counters() (nowrap=True) while
 # they read the raw counters and pass them to the wrap-numbers cache.
 _nowrap_lock = threading.Lock()
+if hasattr(os, "register_at_fork"):
+    # Same as for the lock of _common.wrap_numbers(): a fork() while
+    # another thread is inside a nowrap=True call must not leave the
+    # child with a lock which is held for ever.  Registered after the
+    # one of _common, hence taken first / released last, like in
+    # disk_io_counters() and net_io_counters().
+    os.register_at_fork(
+        before=_nowrap_lock.acquire,
+        after_in_parent=_nowrap_lock.release,
+        after_in_child=_nowrap_lock.release,
+    )
 
 
 def disk_io_counters(perdisk=False, nowrap=True):
